@@ -437,20 +437,41 @@ fn proportion_sweep(run: &Arc<Run>, seed: u64, thorough: bool) {
     let mut l = run.local();
     let mut r = Rng::from(&[seed, 0xc11d]);
     for _ in 0..if thorough { 4000 } else { 400 } {
-        let n = *r.pick(&[usize::MAX, usize::MAX - 1, usize::MAX / 2, 1usize << 53, (1usize << 53) + 1, 1usize << 32]);
-        let k = match r.below(5) {
+        let n = *r.pick(&[usize::MAX, usize::MAX - 1, usize::MAX / 2, 1usize << 53, (1usize << 53) + 1, 1usize << 32, (1usize << 60) + 12345, 10_000_000_000, (1usize << 40) + 3]);
+        let k = match r.below(8) {
             0 => n,
             1 => n - 1,
             2 => n / 2,
             3 => r.below(20) as usize,
-            _ => n - r.below(20) as usize,
+            4 => n - r.below(20) as usize,
+            // successes above the population by less than the spacing of f64 at that magnitude
+            5 => n.saturating_add(1),
+            6 => n.saturating_add(1 + r.below(100) as usize),
+            _ => n / 4 + r.below(1000) as usize,
         };
         let kind = KINDS[r.below(3) as usize];
         let level = *r.pick(&LEVELS);
         let inp = || json!({"n": n.to_string(), "k": k.to_string(), "kind": kind.name(), "level": level});
-        let want = if k < 2 || n - k < 2 { Want::Err(vec![ErrFam::TooFewSuccesses, ErrFam::TooFewFailures]) } else { Want::OkOrAnyErr };
+        let too_many = k > n;
+        if too_many {
+            l.count("class:huge-counts-k>n");
+        }
+        let want = if too_many {
+            Want::Err(vec![ErrFam::InvalidSuccesses])
+        } else if k < 2 || n - k < 2 {
+            Want::Err(vec![ErrFam::TooFewSuccesses, ErrFam::TooFewFailures])
+        } else {
+            Want::OkOrAnyErr
+        };
         verdict("proportion::ci", "huge-counts", &want, &call(|| proportion::ci(conf(kind, level), n, k)).map(|i| Obs::of64(&i)), &inp, &mut l);
-        let wz = if k < 10 || n - k < 10 { Want::Err(vec![ErrFam::TooFewSuccesses, ErrFam::TooFewFailures]) } else { Want::OkOrAnyErr };
+        verdict("proportion::ci_wilson", "huge-counts", &want, &call(|| proportion::ci_wilson(conf(kind, level), n, k)).map(|i| Obs::of64(&i)), &inp, &mut l);
+        let wz = if too_many {
+            Want::Err(vec![ErrFam::InvalidSuccesses])
+        } else if k < 10 || n - k < 10 {
+            Want::Err(vec![ErrFam::TooFewSuccesses, ErrFam::TooFewFailures])
+        } else {
+            Want::OkOrAnyErr
+        };
         verdict("proportion::ci_z_normal", "huge-counts", &wz, &call(|| proportion::ci_z_normal(conf(kind, level), n, k)).map(|i| Obs::of64(&i)), &inp, &mut l);
         l.eval();
         if let Err(p) = caught(|| proportion::is_significant(n, k)) {
@@ -664,6 +685,7 @@ pub fn run(run: &Arc<Run>) {
         "class:harmonic-reciprocal-CI-straddles-zero",
         "class:mismatched-lengths",
         "class:k>n",
+        "class:huge-counts-k>n",
         "class:k-in-{0,1}",
         "class:n-k-in-{0,1}",
         "class:n=0",
